@@ -1100,6 +1100,12 @@ class Engine:
             raise Unsupported(f'decl {d.k}')
         name, t = d.name, d.t
         inits = [c for c in d.c if not c.k.endswith('Attr')]
+        if d.get('handle_var') and inits:
+            # lifetime (C16): a non-owning py::handle must not be initialised from a temporary that solely owns a new object
+            self.oblige(st, 'II', 'handle-variable-is-not-bound-to-a-temporary-that-solely-owns-its-object',
+                        z3.BoolVal(not d.get('dangling')), d.get('line'),
+                        note=f'{name} is copied from the temporary {d.get("dangling")}, which is destroyed at the end of the statement'
+                        if d.get('dangling') else '')
         if d.get('storage') == 'static':
             hook = getattr(self.cur_contract, 'static_var', None)
             if hook:
